@@ -159,6 +159,29 @@ def anchored():
     return [transition_fs.move_agent, transition_fs.turn_agent, envs_utils.get_next_position]
 
 
+def telepod_fields(ctx, n):
+    """the only displacement that is not a move: an agent on a telepod with two to five same-coloured partners scattered over
+    the grid (and telepods of other colours, walls, doors, keys elsewhere), every action, many random outcomes each"""
+    from gym_gridverse.grid_object import Telepod, Wall, Door, Key, Color
+    for k in range(n):
+        rng = gen.rng_for('C08pods', ctx.seed, ctx.shard, k)
+        h, w = rng.randint(2, 6), rng.randint(2, 6)
+        state, _ = gen.rand_state(rng, [Floor, Wall, Door, Key, Telepod], gen.COLORS, shape=(h, w), p_floor=0.5)
+        colour = rng.choice(gen.COLORS)
+        cells = [(y, x) for y in range(h) for x in range(w)]
+        rng.shuffle(cells)
+        pods = cells[: min(len(cells), rng.randint(3, 6))]
+        for (y, x) in pods:
+            state.grid[y, x] = Telepod(colour)
+        ay, ax = pods[0]
+        state.agent.position = Position(ay, ax)
+        ctx.hit('telepod_fields.states')
+        for action in Action:
+            for rep in range(4):
+                dyndrive.apply_fn(ctx, 'teleport', dyndrive.copy_state(state), action, np.random.default_rng(rng.randrange(2**32)))
+            ctx.nontrivial(('pods', enc.es(state), action.name))
+
+
 def run(ctx):
     from .. import custom_objects
     custom_objects.enable(cleats=True)  # user-defined object types join the generators' pool (flags, not types, must decide)
@@ -181,6 +204,7 @@ def run(ctx):
                     if a.is_move() or a.is_turn():
                         ctx.nontrivial(('sweep', enc.es(state), a.name))
         ctx.sample('sweep_state', {'state': enc.render(state), 'category': cat})
+        telepod_fields(ctx, ctx.pick(150, 3000))
         dyndrive.shipped_histories(ctx, 'C08hist', None, ctx.pick(1, 16), ctx.pick(120, 600), history_invariant(ctx, 'shipped'))
         composition_histories(ctx, ctx.pick(24, 2000), ctx.pick(60, 150))
         ctx.extra['exhaustive'] = True
